@@ -316,10 +316,25 @@ def csv_rows_lit(text):
         f'({CS(k[0])}, {CS(k[1])}, {CS(k[2])}, [' + '; '.join(cells) + '])' for k, cells in groups) + ']))'
 
 
+def line_lit(line):
+    """Coq term for one report line; runs of >= 4 blanks are written as a number (Model.ResultParserFast.unpack)"""
+    parts = re.split(r'( {4,})', line)      # text, blanks, text, blanks, ...
+    segs, n = [], 0
+    for i, p in enumerate(parts):
+        if i % 2:
+            n = len(p)
+        elif p or n:
+            segs.append(f'({n}%nat, {CS(p)})')
+            n = 0
+    if n:
+        segs.append(f'({n}%nat, "")')
+    return CS(line) if len(segs) == 1 and segs[0].startswith('(0%nat,') or not segs else 'unpack [' + '; '.join(segs) + ']'
+
+
 def text_lit(text):
     """Coq term of type string for a report, line by line"""
     pieces = text.split('\n')
-    return '(join_nl [' + ';\n '.join(CS(x) for x in pieces[:-1]) + '] ++ ' + CS(pieces[-1]) + ')'
+    return '(join_nl [' + ';\n '.join(line_lit(x) for x in pieces[:-1]) + '] ++ ' + line_lit(pieces[-1]) + ')'
 
 
 # ------------------------------------------------------------------------------------------ synthetic reports
